@@ -81,6 +81,12 @@ Proof. exact parse_payloads_from_source. Qed.
 Theorem C12_start_from_source : forall bs, parse_start bs = parse_start_src bs.
 Proof. exact parse_start_from_source. Qed.
 
+From Peppi Require Proofs.ReaderTies.
+(* the reader model these theorems speak about is the one regenerated from the source on this run: one-shot read, every incremental
+   entry point, the event dispatch with the splitter, the Game Start wiring, the metadata reader (Proofs/ReaderTies.v reader_tied) *)
+Theorem C12_reader_is_the_source : ReaderTies.reader_tied.
+Proof. exact ReaderTies.reader_tied_holds. Qed.
+
 Print Assumptions C12_event_appends_only.
 Print Assumptions C12_oneshot_skip_any_fragmentation.
 Print Assumptions C12_prefix_of_later_states.
@@ -96,3 +102,4 @@ Print Assumptions C12_event_call_from_source.
 Print Assumptions C12_header_from_source.
 Print Assumptions C12_payloads_from_source.
 Print Assumptions C12_start_from_source.
+Print Assumptions C12_reader_is_the_source.
